@@ -281,6 +281,21 @@ let () =
        | Some g -> String.concat " " (List.map string_of_z [g.g_difat; g.g_fat; g.g_minifat; g.g_dir; g.g_big; g.g_mini; g.g_ministream_start; g.g_end])
        | None -> "outoffuel")
     | _ -> "bad-args");
+  (* the allocation tables of the writer for streams of the given sizes (directory order): FAT words and chain
+     starts, mini FAT words and starts, the 109 header DIFAT slots, the words of every DIFAT sector *)
+  reg "c13.tables" (fun a -> match a with
+    | np :: sizes ->
+      let sz = List.map z_of_string sizes in
+      (match locate sz (z_of_string np) with
+       | Some g ->
+         let zs l = String.concat "," (List.map string_of_z l) in
+         let (t, st) = fat_table g sz in
+         let (mt, mst) = minifat_table sz in
+         let rec difs o acc = if Z.ltb o g.g_difat then difs (Z.add o (z_of_string "1")) (zs (msat_sector g o) :: acc) else List.rev acc in
+         "fat=" ^ zs t ^ " st=" ^ zs st ^ " mfat=" ^ zs mt ^ " mst=" ^ zs mst ^ " hdr=" ^ zs (msat_header g)
+         ^ " dif=" ^ String.concat "|" (difs (z_of_string "0") [])
+       | None -> "outoffuel")
+    | _ -> "bad-args");
   (* package layer with the identity "cipher": exposes size prefix, padding and truncation *)
   reg "c13.pkg" (fun a -> match a with
     | [b] -> let enc = encrypt_pkg (fun x -> x) (bytes_of_hex b) in
